@@ -8,7 +8,7 @@ Case kinds
 ops:  ["edit"] | ["bump"] | ["transfer", o] | ["crash", o, j] | ["cut", k] | ["reader", o, j]
       | ["two", oa, ob, schedule] | ["reader2", o, j, schedule] | ["gap", o, schedule]
   gap: (schedule = list of single steps "A"/"B" or [thread, label] = run that thread up to its next checkpoint
-  with that label: tested | walk | open | loaded | removed | end)  caller A = transfer_model(optsets[o]); caller B = transfer_model({"codegen": True}) whose _codegen_model is
+  with that label: tested | walk | open | loaded | saved | removed | end)  caller A = transfer_model(optsets[o]); caller B = transfer_model({"codegen": True}) whose _codegen_model is
   replaced by a kill (no gcc): B rejects the cache file, compiles, enters save_model, removes the cache file and
   dies.  Extra checkpoints through a proxy for the name `os` in api.py: after every existence/mtime test of the
   cache file, before os.walk, before the cache file is opened for reading, after os.remove of the cache file
@@ -76,6 +76,24 @@ def api():
     return _api
 
 
+HANG_S = int(os.environ.get("C21_HANG_S", "60"))
+_hangs = [0]          # after the first hang in this process later ones get 20 s (keeps a hanging mutant affordable)
+
+
+def reset_api():
+    """after a hang a thread is stuck inside api (e.g. on a module-level lock): give the next case a fresh module"""
+    global _api
+    import sys
+    _api = None
+    sys.modules.pop("pymoca.backends.casadi.api", None)
+    try:
+        import pymoca.backends.casadi as pk
+        if hasattr(pk, "api"):
+            delattr(pk, "api")
+    except Exception:  # noqa
+        pass
+
+
 class SimCrash(BaseException):
     pass
 
@@ -116,7 +134,7 @@ class Sched:
     def step(self, n):
         if not self.done[n]:
             self.go[n].release()
-            if not self.arr[n].acquire(timeout=600):
+            if not self.arr[n].acquire(timeout=150):
                 raise RuntimeError("scheduler: thread %s did not reach a checkpoint" % n)
 
 
@@ -293,6 +311,7 @@ def do_history(case):
     mo = os.path.join(d, name + ".mo")
     cache = os.path.join(d, name + ".pymoca_cache")
     st = {"clock": 0, "src": 0, "ver": 0}
+    state = {"hung": False}
 
     def text():
         return case["template"].replace("@N@", str(st["src"]))
@@ -314,6 +333,21 @@ def do_history(case):
             os.utime(cache, (T0 + st["clock"], T0 + st["clock"]))
 
     def transfer(o):
+        """in the main thread: bounded by HANG_S (a transfer_model that does not come back is outcome "Hang")"""
+        if threading.current_thread() is not threading.main_thread():
+            return transfer_inner(o)
+        box = {}
+        th = threading.Thread(target=lambda: box.__setitem__("r", transfer_inner(o)), daemon=True)
+        th.start()
+        limit = HANG_S if _hangs[0] == 0 else 20
+        th.join(limit)
+        if th.is_alive():
+            state["hung"] = True
+            _hangs[0] += 1
+            return {"out": "Hang", "msg": "transfer_model did not return within %d s" % limit, "pl": None}
+        return box.get("r", {"out": "Raised", "exc": "thread-died", "pl": None})
+
+    def transfer_inner(o):
         start = len(PROXY.log)
         r = {}
         try:
@@ -437,6 +471,7 @@ def do_history(case):
                 return orig[2](*args, **kw)
             finally:
                 events.append(me() + ":saved")
+                sched.checkpoint("saved")      # after save_model returned, before transfer_model returns
 
         def codegen_model(*args, **kw):
             raise SimCrash()
@@ -484,6 +519,8 @@ def do_history(case):
     try:
         write_src()
         for op in case["ops"]:
+            if state["hung"]:
+                break                      # the interpreter is stuck inside api: stop this history
             before = stat()
             if op[0] == "edit":
                 st["clock"] += 1
@@ -562,6 +599,8 @@ def do_history(case):
         a.__dict__.pop("open", None)
         a.os = os
         a.__version__ = VERSION
+        if state["hung"]:
+            reset_api()
         shutil.rmtree(d, ignore_errors=True)
 
 
